@@ -114,3 +114,16 @@ pub fn draw_driver(pb: &mut compio_driver::ProactorBuilder) -> compio_driver::Dr
     simcore::sig(0xd1 + (t == compio_driver::DriverType::Poll) as u64);
     t
 }
+
+/// Close with a reset instead of lingering in TIME_WAIT: the harness opens thousands of loopback TCP
+/// connections per second and would otherwise use up the ephemeral ports.
+pub fn no_time_wait(fd: &impl std::os::fd::AsRawFd) {
+    let l = libc::linger { l_onoff: 1, l_linger: 0 };
+    unsafe { libc::setsockopt(fd.as_raw_fd(), libc::SOL_SOCKET, libc::SO_LINGER, &l as *const _ as *const libc::c_void, std::mem::size_of::<libc::linger>() as libc::socklen_t) };
+}
+
+/// The machine ran out of local ports (or the 4-tuple is still in TIME_WAIT): an environment condition of
+/// the harness, not a behaviour of the code under test.
+pub fn out_of_ports(e: &std::io::Error) -> bool {
+    matches!(e.kind(), std::io::ErrorKind::AddrInUse | std::io::ErrorKind::AddrNotAvailable)
+}
